@@ -2,11 +2,16 @@
 From Coq Require Import List ZArith NArith Bool.
 Import ListNotations.
 From SygmaV Require Export Lib.RunLib Model.C04.
+From SygmaV Require Proofs.C04.
 Local Open Scope Z_scope.
 
 Inductive case :=
 | Single (p : path) (head blk conf : Z) (impl_handled : bool)
-| Hist (start : option Z) (conf : Z) (heads : list Z) (impl_obs : list (N * Z)).
+| Hist (start : option Z) (conf : Z) (heads : list Z) (impl_obs : list (N * Z))
+(* a sequence of guard evaluations on ONE set of long-lived handler objects that share the
+   configured confirmation depth, as app.go wires them: the guards must stay what they are however
+   often and in whatever order they have been used before *)
+| Seq (conf : Z) (ops : list (path * Z * Z)) (impl_handled : list bool).
 
 Fixpoint obs_eqb (a b : list (N * Z)) : bool :=
   match a, b with
@@ -15,16 +20,25 @@ Fixpoint obs_eqb (a b : list (N * Z)) : bool :=
   | _, _ => false
   end.
 
+Fixpoint seq_all (f : path -> Z -> Z -> bool -> bool) (ops : list (path * Z * Z)) (obs : list bool) : bool :=
+  match ops, obs with
+  | [], [] => true
+  | (p, head, blk) :: ops', h :: obs' => f p head blk h && seq_all f ops' obs'
+  | _, _ => false
+  end.
+
 Definition agree (c : case) : bool :=
   match c with
   | Single p head blk conf h => Bool.eqb (accept p head blk conf) h
   | Hist st conf heads obs => obs_eqb (scan st conf 0%N heads) obs
+  | Seq conf ops obs => seq_all (fun p head blk h => Bool.eqb (accept p head blk conf) h) ops obs
   end.
 
 Definition judge (c : case) : bool :=
   match c with
   | Single p head blk conf h => single_ok p head blk conf h
   | Hist st conf heads obs => hist_ok st conf 0%N heads obs
+  | Seq conf ops obs => seq_all (fun p head blk h => single_ok p head blk conf h) ops obs
   end.
 
 (* branch tag of the model: path x accepted?, history x anything handled? *)
@@ -35,6 +49,17 @@ Definition tag (c : case) : N :=
                   | SubRetryMsg => 8 | SubRetryEvt => 10 end
        + if accept p head blk conf then 1 else 0)%N
   | Hist st conf heads _ => match scan st conf 0%N heads with [] => 12%N | _ => 13%N end
+  | Seq conf ops _ =>
+      if existsb (fun o => match o with (p, head, blk) => accept p head blk conf end) ops then 15%N else 14%N
   end.
+
+(* the judge accepts the model's own outputs on every sequence *)
+Lemma seq_judge_accepts_model conf ops :
+  seq_all (fun p head blk h => single_ok p head blk conf h) ops
+          (map (fun o => match o with (p, head, blk) => accept p head blk conf end) ops) = true.
+Proof.
+  induction ops as [|[[p head] blk] ops IH]; cbn; [reflexivity|].
+  rewrite Proofs.C04.single_ok_model. exact IH.
+Qed.
 
 Definition check_all := check_cases agree judge tag.
